@@ -166,7 +166,7 @@ Theorem stdout_is_formatted : forall (tmp_of bk_of : path -> path) (b : ebits) (
   emit tmp_of bk_of Stdout b n o f = ([], OutText (negb (b_quiet b)) f, false) /\
   (forall x, In x (e_ops (emit tmp_of bk_of Files b n o f)) -> x = Write n f) /\
   (forall x, In x (e_ops (emit tmp_of bk_of FilesWithBackup b n o f)) ->
-             x = Write (tmp_of n) f \/ x = Rename n (bk_of n) \/ x = Rename (tmp_of n) n).
+             x = Remove (tmp_of n) \/ x = Write (tmp_of n) f \/ x = Rename n (bk_of n) \/ x = Rename (tmp_of n) n).
 Proof. exact stdout_is_formatted_lemma. Qed.
 Print Assumptions stdout_is_formatted.
 
